@@ -1,4 +1,4 @@
-import NasVerif.Model.Conv17
+import NasVerif.Proofs.Gsm7Lemmas
 /-!
 # C17 — timers, bit rates, time zones and network names encode faithfully
 
@@ -6,7 +6,7 @@ Spec decoders (`decTimer2`, `decTimer3`, `unpackGsm7`) are written from TS 24.00
 Theorems are about the hand models of the (repaired) Go helpers, tied to the code by the correspondence run.
 -/
 namespace NasVerif.Props.C17
-open NasVerif NasVerif.Model.Conv17
+open NasVerif NasVerif.Model.Conv17 NasVerif.Spec.Gsm7 NasVerif.Proofs.Gsm7
 
 /-! ## GPRS timer 2 / 3 -/
 
@@ -168,30 +168,32 @@ theorem field_roundtrip : ∀ x, x < 100 → decField (encField x) = x := by dec
 
 /-! ## network name -/
 
-/-- TS 23.038: character i is bits 7i … 7i+6 of the octet string read as a little-endian number -/
-def leValue : Bytes → Nat
-  | [] => 0
-  | b :: r => b.toNat + 256 * leValue r
-
-def unpackGsm7 (buf : Bytes) (n : Nat) : List UInt8 :=
-  (List.range n).map (fun i => UInt8.ofNat (leValue buf / 2 ^ (7 * i) % 128))
-
 /-- spare-bit count and Len of the IE, for every name length -/
 theorem name_header (name : List UInt8) :
     (packGsm7Bit name).2 = (8 - (7 * name.length) % 8) % 8 ∧ (packGsm7Bit name).2 < 8 := by
   simp [packGsm7Bit]; omega
 
-/-- full statement (not yet proved in general; evaluated on the real code for every length 0..64 each run) -/
-def name_roundtrip_statement : Prop :=
-  ∀ name : List UInt8, (∀ c ∈ name, c < 128) →
-    unpackGsm7 (packGsm7Bit name).1 name.length = name ∧ (packGsm7Bit name).1.length = (7 * name.length + 7) / 8
+/-- every name of 7-bit characters, of any length, unpacks (by the TS 23.038 rule) to itself, and occupies ⌈7n/8⌉ octets -/
+theorem name_roundtrip (name : List UInt8) (h : ∀ c ∈ name, c < 128) :
+    unpackGsm7 (packGsm7Bit name).1 name.length = name ∧ (packGsm7Bit name).1.length = (7 * name.length + 7) / 8 := by
+  have hcs : ∀ c ∈ name, c.toNat < 128 := fun c hc => by have := h c hc; exact UInt8.lt_iff_toNat_lt.mp this
+  have h0 : PInv 0 [] := by simp [PInv, leValue]
+  obtain ⟨⟨_, hlen⟩, hval⟩ := packLoop_spec name 0 [] hcs h0
+  simp only [Nat.zero_add, leValue, Nat.mul_zero, Nat.pow_zero, Nat.one_mul] at hlen hval
+  refine ⟨?_, by simpa [packGsm7Bit] using hlen⟩
+  apply List.ext_getElem
+  · simp [unpackGsm7]
+  · intro k hk1 hk2
+    simp only [unpackGsm7, packGsm7Bit, List.getElem_map, List.getElem_range, hval]
+    rw [digit_extract name hcs k hk2]
+    simp
 
 def ascii (s : String) : List UInt8 := s.toList.map (fun c => UInt8.ofNat c.toNat)
 
 set_option maxRecDepth 1000000 in
-/-- partial (tests, not the unbounded claim): every 1-character name, and instances of length 7, 8, 9, 10 and 16
+/-- instances (tests, kept as non-vacuity examples for `name_roundtrip`): every 1-character name, and instances of length 7, 8, 9, 10 and 16
 (the lengths at which the pre-fix code went wrong) -/
-theorem name_roundtrip_partial :
+theorem name_roundtrip_examples :
     (∀ a, a < 128 → unpackGsm7 (packGsm7Bit [UInt8.ofNat a]).1 1 = [UInt8.ofNat a]) ∧
     (∀ n ∈ ["free5GC", "abcdefgh", "abcdefghi", "abcdefghij", "abcdefghijklmnop"],
       unpackGsm7 (packGsm7Bit (ascii n)).1 n.length = ascii n ∧ (packGsm7Bit (ascii n)).1.length = (7 * n.length + 7) / 8) := by
